@@ -19,3 +19,5 @@ def auditParams : Params where
 
 example : readAll auditParams (writeAll auditParams 0 [List.replicate 20 1, [], [2, 3]]).1
     = ([List.replicate 20 1, [], [2, 3]], .eof) := by decide
+#print axioms C12_truncation_prefix
+#print axioms C12_truncation_repair
